@@ -68,5 +68,22 @@ add("C06",
     "extension used), and a value of symbolic code points in each value slot whose rendering must be exactly the RFC "
     "5228 quoted form inside the unchanged skeleton.",
     "DESIGN.md 3/C06", "CrossHair symbolic execution (z3) of FiltersSet + Command.tosieve with symbolic string values; reference grammar on the output")
-for _p in ("C05", "C08", "C09", "C10", "C14", "C15", "C16", "C17"):
+add("C05",
+    "Inductive step by symbolic execution: for arbitrary buffer and segment contents within the length bounds, reading "
+    "from (buffer, [S1, S2]) and from (buffer+S1, [S2]) gives the same result and leftover for the block reader and the "
+    "line reader (so any number of segments is equivalent to one); plus every operation over a reply corpus with "
+    "symbolic cut points and recv() caps followed by a sentinel operation.",
+    "DESIGN.md 3/C05", "CrossHair symbolic execution (z3) of __read_block/__read_line on symbolic bytes (segment-absorption lemma) + cut-point exploration")
+add("C08",
+    "Bounded symbolic model checking: names/contents of symbolic code points flow through every public operation, "
+    "__send_command, __prepare_args and __prepare_content; the bytes handed to sendall must parse, with a strict RFC "
+    "5804 command parser, as exactly one command of the intended verb whose arguments decode to the caller's values, or "
+    "nothing is written and Error is raised.",
+    "DESIGN.md 3/C08", "CrossHair symbolic execution (z3) of the client's send path with symbolic strings vs strict RFC 5804 command parser")
+add("C09",
+    "Bounded symbolic model checking: every operation x status x response-code shape x text form x text pool through the "
+    "real reply reader (success iff OK, False/None with errcode/errmsg iff NO, Error on BYE, next command still in step), "
+    "and symbolic ASCII text through __read_line/__parse_error.",
+    "DESIGN.md 3/C09", "CrossHair symbolic execution (z3) of __read_line/__read_response/__parse_error on replies from the RFC 5804 response grammar")
+for _p in ("C10", "C14", "C15", "C16", "C17"):
     NOT_APPLICABLE[_p] = "check under construction in this session (see DESIGN.md section 3); not yet claimed"
